@@ -697,3 +697,149 @@ func TestFecForged(t *testing.T) {
 	sum.Traces, sum.Lines = tf.N, tf.L
 	vh.WriteJSON(filepath.Join(out, "fec_forged.json"), sum)
 }
+
+// TestFecPairs (C12, FEC part): the same history -- packet sizes, idle gaps that make the encoder skip a group's parity, losses,
+// duplicates, reordering -- is executed with the encoder at position 0 and again one to three groups before the wrap value of the
+// sequence ids (the decoder positioned likewise). What the encoder stamped (relative to the starting position, modulo the wrap
+// value, and whether it is in the documented range) and what the decoder did (reconstructed packets, shard sets, newest set)
+// must be identical. A "pair" line holds the two normalised observations of one step.
+func TestFecPairs(t *testing.T) {
+	out := vh.OutDir(t)
+	rng := rand.New(rand.NewSource(vh.Seed()*6700417 + 3))
+	runs := vh.EnvInt("FEC_RUNS", 40)
+	tf, err := vh.OpenTraceFile(filepath.Join(out, "fec_pairs.ndjson"))
+	vh.Must(err)
+	sum := &summary{Kinds: map[string]int{}}
+	ratios := [][2]int{{1, 1}, {2, 1}, {3, 2}, {10, 3}, {4, 1}, {12, 3}, {5, 5}, {2, 5}}
+	type obs = map[string]any
+	runOne := func(d, p int, start uint32, seed int64, skipAt int) (lines []obs, panics []string) {
+		synctest.Test(t, func(t *testing.T) {
+			r := rand.New(rand.NewSource(seed))
+			n := uint32(d + p)
+			paws := realPaws(int(n))
+			rel := func(seq uint32) int64 {
+				x := int64(seq) - int64(start)
+				if x < 0 {
+					x += int64(paws)
+				}
+				return x
+			}
+			w := newWorld(d, p, d, p, start)
+			lossPct := []int{0, 10, 30}[r.Intn(3)]
+			for gi := 0; gi < 8; gi++ {
+				skip := gi == skipAt || r.Intn(6) == 0
+				for i := 0; i < d; i++ {
+					size := []int{1, 2, 50, 700, r.Intn(1392)}[r.Intn(5)]
+					em, _ := w.encode(size, !(skip && i == d-1))
+					e := []obs{}
+					for _, q := range em {
+						e = append(e, obs{"rel": rel(q.Seq), "inrange": q.Seq < paws, "flag": q.Flag, "size": q.Size})
+					}
+					lines = append(lines, obs{"op": "Encode", "emitted": e})
+				}
+				keepTail := r.Intn(int(n) + 1)
+				if gi == 7 {
+					keepTail = 0
+				}
+				for len(w.air) > keepTail {
+					i := 0
+					if r.Intn(3) == 0 {
+						i = r.Intn(len(w.air))
+					}
+					pk := w.air[i]
+					x := r.Intn(100)
+					switch {
+					case x < lossPct:
+						w.air = removeAt(w.air, i)
+						continue
+					case x < lossPct+8:
+					default:
+						w.air = removeAt(w.air, i)
+					}
+					outs, pm := w.decode(pk)
+					if pm != "" {
+						panics = append(panics, pm)
+						return
+					}
+					if outs == nil {
+						outs = []outJ{}
+					}
+					st := w.dec.State()
+					sets := []obs{}
+					ids := make([]uint32, 0, len(st.Sets))
+					for id := range st.Sets {
+						ids = append(ids, id)
+					}
+					sort.Slice(ids, func(a, b int) bool { return rel(ids[a]*n) < rel(ids[b]*n) })
+					// Only the newest shard set and the two before it are compared, and what a packet reconstructs only when its group is
+					// one of those: the decoder measures "how far behind" modulo 2^32 while ids wrap at the wrap value, so across the wrap
+					// the set that is exactly three groups behind is dropped one step earlier than elsewhere (it is outside "the few most
+					// recent groups" of C07 either way).
+					newestRel := rel(st.NewestShardId*n) / int64(n)
+					for _, id := range ids {
+						if newestRel-rel(id*n)/int64(n) > 2 {
+							continue
+						}
+						ss := []int64{}
+						for _, s := range st.Sets[id] {
+							ss = append(ss, rel(s))
+						}
+						sort.Slice(ss, func(a, b int) bool { return ss[a] < ss[b] })
+						sets = append(sets, obs{"id": rel(id*n) / int64(n), "seqs": ss})
+					}
+					live := newestRel-rel(pk.Seq)/int64(n) <= 2
+					var outv any = "not-live"
+					if live {
+						outv = outs
+					}
+					lines = append(lines, obs{"op": "Decode", "pkt": rel(pk.Seq), "out": outv, "sets": sets, "newest": newestRel,
+						"tune": st.ShouldTune, "d": st.DataShards, "p": st.ParityShards})
+				}
+			}
+		})
+		return
+	}
+	for r := 0; r < runs; r++ {
+		dp := ratios[r%len(ratios)]
+		n := uint32(dp[0] + dp[1])
+		k := 1 + rng.Intn(3)
+		start := realPaws(int(n)) - uint32(k)*n
+		seed := rng.Int63()
+		// in half of the runs the parity of exactly the last group before the wrap value is skipped
+		skipAt := -1
+		if r%2 == 0 {
+			skipAt = k - 1
+		}
+		a, pa := runOne(dp[0], dp[1], 0, seed, skipAt)
+		b, pb := runOne(dp[0], dp[1], start, seed, skipAt)
+		for _, pm := range append(pa, pb...) {
+			sum.Panics = append(sum.Panics, fmt.Sprintf("pairs%d %d/%d: %s", r, dp[0], dp[1], pm))
+		}
+		tr := &vh.Trace{}
+		m := len(a)
+		if len(b) > m {
+			m = len(b)
+		}
+		for i := 0; i < m; i++ {
+			var x, y any = obs{"op": "missing"}, obs{"op": "missing"}
+			if i < len(a) {
+				x = a[i]
+			}
+			if i < len(b) {
+				y = b[i]
+			}
+			tr.Add(map[string]any{"ev": "pair", "a": x, "b": y, "panic": false})
+			sum.Steps++
+		}
+		if skipAt >= 0 {
+			sum.Kinds["skip-at-last-group-before-wrap"]++
+		}
+		sum.Kinds["crossed-wrap"]++
+		tf.WriteTrace(map[string]any{"ed": dp[0], "ep": dp[1], "dd": dp[0], "dp": dp[1], "src": fmt.Sprintf("pairs%d k=%d", r, k), "start": 0, "calm": 0, "nearwrap": true}, tr)
+		sum.Behaviours++
+		sum.Nontrivial++
+	}
+	vh.Must(tf.Close())
+	sum.Traces, sum.Lines = tf.N, tf.L
+	vh.WriteJSON(filepath.Join(out, "fec_pairs.json"), sum)
+}
